@@ -1164,6 +1164,14 @@ class Interp(object):
             self.exec_stmt(s, scope, func)
 
     def exec_stmt(self, s, scope, func):
+        try:
+            return self._exec_stmt(s, scope, func)
+        except PyRaise as e:
+            if e.node is None:
+                e.node = s        # the statement an implicit raise is in
+            raise
+
+    def _exec_stmt(self, s, scope, func):
         self.steps += 1
         if self.steps > 200000:
             raise Undecided('step limit')
